@@ -116,6 +116,9 @@ type execRunner struct {
 
 	p2hCalls, h2pCalls int32
 	onStart            func()
+
+	// rawStdout, when set before Start, receives a copy of everything the host reads from the plugin's stdout
+	rawStdout *safeBuf
 }
 
 func newExecRunner(cmd *exec.Cmd) (*execRunner, error) {
@@ -141,9 +144,14 @@ func (r *execRunner) Start(context.Context) error {
 	return nil
 }
 func (r *execRunner) Diagnose(context.Context) string { return "" }
-func (r *execRunner) Stdout() io.ReadCloser           { return r.stdout }
-func (r *execRunner) Stderr() io.ReadCloser           { return r.stderr }
-func (r *execRunner) Name() string                    { return r.cmd.Path }
+func (r *execRunner) Stdout() io.ReadCloser {
+	if r.rawStdout != nil {
+		return teeReadCloser{io.TeeReader(r.stdout, r.rawStdout), r.stdout}
+	}
+	return r.stdout
+}
+func (r *execRunner) Stderr() io.ReadCloser { return r.stderr }
+func (r *execRunner) Name() string          { return r.cmd.Path }
 func (r *execRunner) Wait(context.Context) error {
 	r.once.Do(func() {
 		r.werr = r.cmd.Wait()
@@ -218,3 +226,10 @@ func dispense(c *plugin.Client, name string) (Handle, plugin.ClientProtocol, err
 func killBounded(c *plugin.Client, d time.Duration) (time.Duration, bool) {
 	return within(d, c.Kill)
 }
+
+type teeReadCloser struct {
+	io.Reader
+	c io.Closer
+}
+
+func (t teeReadCloser) Close() error { return t.c.Close() }
